@@ -51,22 +51,22 @@ impl MemoryMappedTick {
 //@ fn pinocchio/state/whirlpool/tick_array/tick.rs initialized in=/^impl MemoryMappedTick \{/ -> r
     ensures r == self.view().initialized,
 //@ end
-//@ fn pinocchio/state/whirlpool/tick_array/tick.rs liquidity_net in=/^impl MemoryMappedTick \{/ -> r
+//@ fn pinocchio/state/whirlpool/tick_array/tick.rs liquidity_net in=/^impl MemoryMappedTick \{/ -> r tags=C12,C05
     ensures r == self.view().liquidity_net,
 //@ end
-//@ fn pinocchio/state/whirlpool/tick_array/tick.rs liquidity_gross in=/^impl MemoryMappedTick \{/ -> r
+//@ fn pinocchio/state/whirlpool/tick_array/tick.rs liquidity_gross in=/^impl MemoryMappedTick \{/ -> r tags=C12,C05
     ensures r == self.view().liquidity_gross,
 //@ end
-//@ fn pinocchio/state/whirlpool/tick_array/tick.rs fee_growth_outside_a in=/^impl MemoryMappedTick \{/ -> r
+//@ fn pinocchio/state/whirlpool/tick_array/tick.rs fee_growth_outside_a in=/^impl MemoryMappedTick \{/ -> r tags=C12,C07
     ensures r == self.view().fee_growth_outside_a,
 //@ end
-//@ fn pinocchio/state/whirlpool/tick_array/tick.rs fee_growth_outside_b in=/^impl MemoryMappedTick \{/ -> r
+//@ fn pinocchio/state/whirlpool/tick_array/tick.rs fee_growth_outside_b in=/^impl MemoryMappedTick \{/ -> r tags=C12,C07
     ensures r == self.view().fee_growth_outside_b,
 //@ end
-//@ fn pinocchio/state/whirlpool/tick_array/tick.rs reward_growths_outside in=/^impl MemoryMappedTick \{/ -> r
+//@ fn pinocchio/state/whirlpool/tick_array/tick.rs reward_growths_outside in=/^impl MemoryMappedTick \{/ -> r tags=C12,C11
     ensures r == self.view().reward_growths_outside,
 //@ end
-//@ fn pinocchio/state/whirlpool/tick_array/tick.rs update in=/^impl MemoryMappedTick \{/
+//@ fn pinocchio/state/whirlpool/tick_array/tick.rs update in=/^impl MemoryMappedTick \{/ tags=C12,C05,C07,C11,C01
     ensures final(self).view().initialized == update.initialized, final(self).view().liquidity_net == update.liquidity_net, final(self).view().liquidity_gross == update.liquidity_gross,
         final(self).view().fee_growth_outside_a == update.fee_growth_outside_a, final(self).view().fee_growth_outside_b == update.fee_growth_outside_b,
         forall|k: int| 0 <= k < 3 ==> final(self).view().reward_growths_outside[k] == update.reward_growths_outside[k],
@@ -76,10 +76,10 @@ impl MemoryMappedTick {
 
 impl MemoryMappedPositionRewardInfo {
     pub closed spec fn view(&self) -> PositionRewardInfo { PositionRewardInfo { growth_inside_checkpoint: le_u128(self.growth_inside_checkpoint), amount_owed: le_u64(self.amount_owed) } }
-//@ fn pinocchio/state/whirlpool/position.rs growth_inside_checkpoint in=/^impl MemoryMappedPositionRewardInfo \{/ -> r
+//@ fn pinocchio/state/whirlpool/position.rs growth_inside_checkpoint in=/^impl MemoryMappedPositionRewardInfo \{/ -> r tags=C12,C11
     ensures r == self.view().growth_inside_checkpoint,
 //@ end
-//@ fn pinocchio/state/whirlpool/position.rs amount_owed in=/^impl MemoryMappedPositionRewardInfo \{/ -> r
+//@ fn pinocchio/state/whirlpool/position.rs amount_owed in=/^impl MemoryMappedPositionRewardInfo \{/ -> r tags=C12,C11,C01
     ensures r == self.view().amount_owed,
 //@ end
 }
@@ -98,7 +98,7 @@ impl MemoryMappedPosition {
 //@ fn pinocchio/state/whirlpool/position.rs position_mint in=/^impl MemoryMappedPosition \{/ -> r tags=C15,C12
     ensures *r == self.view().position_mint,
 //@ end
-//@ fn pinocchio/state/whirlpool/position.rs liquidity in=/^impl MemoryMappedPosition \{/ -> r
+//@ fn pinocchio/state/whirlpool/position.rs liquidity in=/^impl MemoryMappedPosition \{/ -> r tags=C12,C18,C05
     ensures r == self.view().liquidity,
 //@ end
 //@ fn pinocchio/state/whirlpool/position.rs tick_lower_index in=/^impl MemoryMappedPosition \{/ -> r
@@ -107,22 +107,22 @@ impl MemoryMappedPosition {
 //@ fn pinocchio/state/whirlpool/position.rs tick_upper_index in=/^impl MemoryMappedPosition \{/ -> r
     ensures r == self.view().tick_upper_index,
 //@ end
-//@ fn pinocchio/state/whirlpool/position.rs fee_growth_checkpoint_a in=/^impl MemoryMappedPosition \{/ -> r
+//@ fn pinocchio/state/whirlpool/position.rs fee_growth_checkpoint_a in=/^impl MemoryMappedPosition \{/ -> r tags=C12,C07
     ensures r == self.view().fee_growth_checkpoint_a,
 //@ end
-//@ fn pinocchio/state/whirlpool/position.rs fee_owed_a in=/^impl MemoryMappedPosition \{/ -> r
+//@ fn pinocchio/state/whirlpool/position.rs fee_owed_a in=/^impl MemoryMappedPosition \{/ -> r tags=C12,C18,C07,C01
     ensures r == self.view().fee_owed_a,
 //@ end
-//@ fn pinocchio/state/whirlpool/position.rs fee_growth_checkpoint_b in=/^impl MemoryMappedPosition \{/ -> r
+//@ fn pinocchio/state/whirlpool/position.rs fee_growth_checkpoint_b in=/^impl MemoryMappedPosition \{/ -> r tags=C12,C07
     ensures r == self.view().fee_growth_checkpoint_b,
 //@ end
-//@ fn pinocchio/state/whirlpool/position.rs fee_owed_b in=/^impl MemoryMappedPosition \{/ -> r
+//@ fn pinocchio/state/whirlpool/position.rs fee_owed_b in=/^impl MemoryMappedPosition \{/ -> r tags=C12,C18,C07,C01
     ensures r == self.view().fee_owed_b,
 //@ end
-//@ fn pinocchio/state/whirlpool/position.rs reward_infos in=/^impl MemoryMappedPosition \{/ -> r
+//@ fn pinocchio/state/whirlpool/position.rs reward_infos in=/^impl MemoryMappedPosition \{/ -> r tags=C12,C18,C11
     ensures forall|k: int| 0 <= k < 3 ==> (#[trigger] r[k]).view() == self.view().reward_infos[k],
 //@ end
-//@ fn pinocchio/state/whirlpool/position.rs set_liquidity in=/^impl MemoryMappedPosition \{/
+//@ fn pinocchio/state/whirlpool/position.rs set_liquidity in=/^impl MemoryMappedPosition \{/ tags=C12,C05
     ensures final(self).view() == (Position { liquidity: liquidity, ..old(self).view() }),
 //@ end
 //@ fn pinocchio/state/whirlpool/position.rs set_tick_lower_index in=/^impl MemoryMappedPosition \{/
@@ -131,24 +131,24 @@ impl MemoryMappedPosition {
 //@ fn pinocchio/state/whirlpool/position.rs set_tick_upper_index in=/^impl MemoryMappedPosition \{/
     ensures final(self).view() == (Position { tick_upper_index: tick_upper_index, ..old(self).view() }),
 //@ end
-//@ fn pinocchio/state/whirlpool/position.rs set_fee_growth_checkpoint_a in=/^impl MemoryMappedPosition \{/
+//@ fn pinocchio/state/whirlpool/position.rs set_fee_growth_checkpoint_a in=/^impl MemoryMappedPosition \{/ tags=C12,C07
     ensures final(self).view() == (Position { fee_growth_checkpoint_a: fee_growth_checkpoint_a, ..old(self).view() }),
 //@ end
-//@ fn pinocchio/state/whirlpool/position.rs set_fee_growth_checkpoint_b in=/^impl MemoryMappedPosition \{/
+//@ fn pinocchio/state/whirlpool/position.rs set_fee_growth_checkpoint_b in=/^impl MemoryMappedPosition \{/ tags=C12,C07
     ensures final(self).view() == (Position { fee_growth_checkpoint_b: fee_growth_checkpoint_b, ..old(self).view() }),
 //@ end
-//@ fn pinocchio/state/whirlpool/position.rs set_fee_owed_a in=/^impl MemoryMappedPosition \{/
+//@ fn pinocchio/state/whirlpool/position.rs set_fee_owed_a in=/^impl MemoryMappedPosition \{/ tags=C12,C07,C01
     ensures final(self).view() == (Position { fee_owed_a: fee_owed_a, ..old(self).view() }),
 //@ end
-//@ fn pinocchio/state/whirlpool/position.rs set_fee_owed_b in=/^impl MemoryMappedPosition \{/
+//@ fn pinocchio/state/whirlpool/position.rs set_fee_owed_b in=/^impl MemoryMappedPosition \{/ tags=C12,C07,C01
     ensures final(self).view() == (Position { fee_owed_b: fee_owed_b, ..old(self).view() }),
 //@ end
-//@ fn pinocchio/state/whirlpool/position.rs set_reward_infos in=/^impl MemoryMappedPosition \{/
+//@ fn pinocchio/state/whirlpool/position.rs set_reward_infos in=/^impl MemoryMappedPosition \{/ tags=C12,C11,C01
     ensures final(self).view().reward_infos[0] == reward_infos[0] && final(self).view().reward_infos[1] == reward_infos[1] && final(self).view().reward_infos[2] == reward_infos[2],
         final(self).view() == (Position { reward_infos: final(self).view().reward_infos, ..old(self).view() }),
 //@ end
 /// writing a PositionUpdate through the view gives the same Position as the Anchor Position::update
-//@ fn pinocchio/state/whirlpool/position.rs update in=/^impl MemoryMappedPosition \{/
+//@ fn pinocchio/state/whirlpool/position.rs update in=/^impl MemoryMappedPosition \{/ tags=C12,C05,C07,C11,C01
     ensures
         final(self).view().liquidity == update.liquidity,
         final(self).view().fee_growth_checkpoint_a == update.fee_growth_checkpoint_a, final(self).view().fee_growth_checkpoint_b == update.fee_growth_checkpoint_b,
@@ -167,7 +167,7 @@ impl MemoryMappedPosition {
 }
 
 impl MemoryMappedPosition {
-//@ fn pinocchio/state/whirlpool/position.rs reset_reward_growth_checkpoints in=/^impl MemoryMappedPosition \{/
+//@ fn pinocchio/state/whirlpool/position.rs reset_reward_growth_checkpoints in=/^impl MemoryMappedPosition \{/ tags=C12,C18,C11
     ensures forall|k: int| 0 <= k < 3 ==> (#[trigger] final(self).view().reward_infos[k]).growth_inside_checkpoint == 0 && final(self).view().reward_infos[k].amount_owed == old(self).view().reward_infos[k].amount_owed,
         final(self).view() == (Position { reward_infos: final(self).view().reward_infos, ..old(self).view() }),
 //@ rewrite_iter_mut_ref
@@ -207,10 +207,10 @@ impl MemoryMappedWhirlpoolRewardInfo {
     pub closed spec fn view(&self) -> WhirlpoolRewardInfo {
         WhirlpoolRewardInfo { mint: self.mint, vault: self.vault, extension: self.extension, emissions_per_second_x64: le_u128(self.emissions_per_second_x64), growth_global_x64: le_u128(self.growth_global_x64) }
     }
-//@ fn pinocchio/state/whirlpool/whirlpool.rs emissions_per_second_x64 in=/^impl MemoryMappedWhirlpoolRewardInfo \{/ -> r
+//@ fn pinocchio/state/whirlpool/whirlpool.rs emissions_per_second_x64 in=/^impl MemoryMappedWhirlpoolRewardInfo \{/ -> r tags=C12,C11
     ensures r == self.view().emissions_per_second_x64,
 //@ end
-//@ fn pinocchio/state/whirlpool/whirlpool.rs growth_global_x64 in=/^impl MemoryMappedWhirlpoolRewardInfo \{/ -> r
+//@ fn pinocchio/state/whirlpool/whirlpool.rs growth_global_x64 in=/^impl MemoryMappedWhirlpoolRewardInfo \{/ -> r tags=C12,C11
     ensures r == self.view().growth_global_x64,
 //@ end
 //@ fn pinocchio/state/whirlpool/whirlpool.rs initialized in=/^impl MemoryMappedWhirlpoolRewardInfo \{/ -> r
@@ -255,7 +255,7 @@ impl MemoryMappedWhirlpool {
 //@ fn pinocchio/state/whirlpool/whirlpool.rs tick_spacing in=/^impl MemoryMappedWhirlpool \{/ -> r
     ensures r == self.tick_spacing_v(),
 //@ end
-//@ fn pinocchio/state/whirlpool/whirlpool.rs liquidity in=/^impl MemoryMappedWhirlpool \{/ -> r
+//@ fn pinocchio/state/whirlpool/whirlpool.rs liquidity in=/^impl MemoryMappedWhirlpool \{/ -> r tags=C12,C05
     ensures r == self.liquidity_v(),
 //@ end
 //@ fn pinocchio/state/whirlpool/whirlpool.rs sqrt_price in=/^impl MemoryMappedWhirlpool \{/ -> r
@@ -264,32 +264,32 @@ impl MemoryMappedWhirlpool {
 //@ fn pinocchio/state/whirlpool/whirlpool.rs tick_current_index in=/^impl MemoryMappedWhirlpool \{/ -> r
     ensures r == self.tick_current_index_v(),
 //@ end
-//@ fn pinocchio/state/whirlpool/whirlpool.rs fee_growth_global_a in=/^impl MemoryMappedWhirlpool \{/ -> r
+//@ fn pinocchio/state/whirlpool/whirlpool.rs fee_growth_global_a in=/^impl MemoryMappedWhirlpool \{/ -> r tags=C12,C07
     ensures r == self.fee_growth_global_a_v(),
 //@ end
-//@ fn pinocchio/state/whirlpool/whirlpool.rs fee_growth_global_b in=/^impl MemoryMappedWhirlpool \{/ -> r
+//@ fn pinocchio/state/whirlpool/whirlpool.rs fee_growth_global_b in=/^impl MemoryMappedWhirlpool \{/ -> r tags=C12,C07
     ensures r == self.fee_growth_global_b_v(),
 //@ end
-//@ fn pinocchio/state/whirlpool/whirlpool.rs reward_last_updated_timestamp in=/^impl MemoryMappedWhirlpool \{/ -> r
+//@ fn pinocchio/state/whirlpool/whirlpool.rs reward_last_updated_timestamp in=/^impl MemoryMappedWhirlpool \{/ -> r tags=C12,C11
     ensures r == self.reward_ts_v(),
 //@ end
-//@ fn pinocchio/state/whirlpool/whirlpool.rs reward_infos in=/^impl MemoryMappedWhirlpool \{/ -> r
+//@ fn pinocchio/state/whirlpool/whirlpool.rs reward_infos in=/^impl MemoryMappedWhirlpool \{/ -> r tags=C12,C11
     ensures *r == self.reward_infos_raw(),
 //@ end
-//@ fn pinocchio/state/whirlpool/whirlpool.rs set_liquidity in=/^impl MemoryMappedWhirlpool \{/
+//@ fn pinocchio/state/whirlpool/whirlpool.rs set_liquidity in=/^impl MemoryMappedWhirlpool \{/ tags=C12,C05
     ensures final(self).liquidity_v() == liquidity, final(self).liquidity == to_le_u128(liquidity),
         *final(self) == (MemoryMappedWhirlpool { liquidity: final(self).liquidity, ..*old(self) }),
 //@ end
-//@ fn pinocchio/state/whirlpool/whirlpool.rs set_reward_last_updated_timestamp in=/^impl MemoryMappedWhirlpool \{/
+//@ fn pinocchio/state/whirlpool/whirlpool.rs set_reward_last_updated_timestamp in=/^impl MemoryMappedWhirlpool \{/ tags=C12,C11
     ensures final(self).reward_ts_v() == last_updated_timestamp,
         *final(self) == (MemoryMappedWhirlpool { reward_last_updated_timestamp: final(self).reward_last_updated_timestamp, ..*old(self) }),
 //@ end
-//@ fn pinocchio/state/whirlpool/whirlpool.rs set_reward_growth_global in=/^impl MemoryMappedWhirlpool \{/
+//@ fn pinocchio/state/whirlpool/whirlpool.rs set_reward_growth_global in=/^impl MemoryMappedWhirlpool \{/ tags=C12,C11
     ensures forall|k: int| 0 <= k < 3 ==> (#[trigger] final(self).reward_infos[k]).view() == (WhirlpoolRewardInfo { growth_global_x64: reward_growth_global[k], ..old(self).reward_infos[k].view() }),
         *final(self) == (MemoryMappedWhirlpool { reward_infos: final(self).reward_infos, ..*old(self) }),
 //@ end
 /// same effect as the Anchor Whirlpool::update_rewards_and_liquidity: liquidity, the three growth accumulators and the timestamp change, nothing else
-//@ fn pinocchio/state/whirlpool/whirlpool.rs update_liquidity_and_reward_growth_global in=/^impl MemoryMappedWhirlpool \{/
+//@ fn pinocchio/state/whirlpool/whirlpool.rs update_liquidity_and_reward_growth_global in=/^impl MemoryMappedWhirlpool \{/ tags=C12,C05,C11
     ensures final(self).liquidity_v() == liquidity, final(self).reward_ts_v() == reward_last_updated_timestamp,
         forall|k: int| 0 <= k < 3 ==> #[trigger] final(self).reward_info_v(k) == (WhirlpoolRewardInfo { growth_global_x64: reward_growth_global[k], ..old(self).reward_info_v(k) }),
         final(self).tick_spacing_v() == old(self).tick_spacing_v(), final(self).sqrt_price_v() == old(self).sqrt_price_v(), final(self).tick_current_index_v() == old(self).tick_current_index_v(),
